@@ -923,8 +923,9 @@ TECHNIQUE = ("Coq proof (tree-walk soundness/completeness of utils.rs; the bash 
              "for all six shells")
 LEVEL_TEXT = (LEVEL_TEXT +
               "  Round 2: executable Gallina transcriptions of shells/powershell.rs and shells/elvish.rs (every panic site "
-              "visible) are proved to compute one table specification; for every tree whose nodes have bin names (what "
-              "Command::build establishes) generation is total and deterministic, and for EVERY path of names or visible "
+              "visible) are proved to compute one table specification; Command::build never runs out of fuel and generation "
+              "(set_bin_name + build + generator) writes a script for every command tree, deterministically; for every "
+              "tree whose nodes have bin names (what build establishes) and for EVERY path of names or visible "
               "aliases, at every depth, the script contains the block keyed by the ';'-joined path with an entry for every "
               "short/long spelling and visible alias of every option or flag that has the primary spelling and for every "
               "name and visible alias of every subcommand; when sibling names are distinct and no name contains ';' every "
@@ -934,6 +935,6 @@ LEVEL_TEXT = (LEVEL_TEXT +
               "generated tree on every run.")
 LEVEL_NOTE = ("Partial: zsh/fish/nushell have no generator model (token oracle only); bash itself is validated by execution, "
               "not proved; PowerShell and elvish are not installed (their scripts are modelled and analysed, not run); "
-              "Command::build and its text side are tied differentially (built-tree dump, byte-exact scripts), and that "
-              "build never exhausts its fuel is observed, not proved; char::is_uppercase is a parameter of the PowerShell "
+              "Command::build and its text side are tied differentially (built-tree dump, byte-exact scripts; that build "
+              "never exhausts its fuel IS proved: C16_build_total); char::is_uppercase is a parameter of the PowerShell "
               "model; known findings (see known_findings.json) are outside the proved class.")
